@@ -11,9 +11,13 @@
 
    Abstract (Section variables, no axioms): the embedding type E with its dimension
    `dim` (= Vec::len), the distance value type D, the distance `dist` (C38 models the
-   kernel bit by bit), and the comparison `dle a b` := "partial_cmp(a, b) is not Greater,
-   Equal when there is no order" -- exactly the comparator handed to sort_by:
-       a.distance.partial_cmp(&b.distance).unwrap_or(Ordering::Equal)
+   kernel bit by bit), and the comparison `dle a b` := "cmp(a, b) is not Greater" for the
+   comparator handed to sort_by.  Since 1932440 that comparator is
+       a.distance.is_nan().cmp(&b.distance.is_nan())
+           .then_with(|| a.distance.total_cmp(&b.distance))
+   (instance `f32_nan_last_le` at the end of this file).  Before: plain total_cmp
+   (9a670c1, `f32_total_le_unfixed`), and before that partial_cmp(..).unwrap_or(Equal)
+   (`f32_le_unfixed`); both kept for the historical lemmas only.
    Rust's sort_by is a stable sort: Model/StableSort.v. *)
 From MV Require Import Base.Prelude Model.StableSort.
 From Coq Require Import Sorting.Permutation Sorting.Sorted.
@@ -204,15 +208,22 @@ Section Vec.
 
   (* put_internal: the dimension contract; `fid` is the id the frame gets (C06).
      Returns the new state and the error, if any (a rejected put has still enabled the
-     vector index: enable_vec runs before the comparison). *)
-  Definition vput (s : vstate) (fid : N) (emb : option E) : vstate * option N :=
+     vector index: enable_vec runs before the comparison).
+     Since 564c799 an empty vector is dropped right after the contract
+     (`embedding.filter(|v| !v.is_empty())`): the frame is stored without embedding.
+     keep_empty = true is the code before that commit (historical lemmas only). *)
+  Definition vput_gen (keep_empty : bool) (s : vstate) (fid : N) (emb : option E) : vstate * option N :=
     let incoming := match emb with
                     | Some e => if N.eqb (dim e) 0 then None else Some (dim e mod U32_MOD)
                     | None => None
                     end in
+    let stored := match emb with
+                  | Some e => if negb keep_empty && N.eqb (dim e) 0 then None else Some e
+                  | None => None
+                  end in
     match incoming with
     | None => (mkVstate (vs_enabled s) (vs_manifest s) (vs_index s)
-                        (vs_pending s ++ [PPut fid emb]) (vs_deleted s), None)
+                        (vs_pending s ++ [PPut fid stored]) (vs_deleted s), None)
     | Some d =>
         let s1 := if vs_enabled s then s else venable s in
         match effective_dim (vmem_of s1) with
@@ -227,9 +238,11 @@ Section Vec.
                          | None => None
                          end in
               (mkVstate (vs_enabled s1) mf' (vs_index s1)
-                        (vs_pending s1 ++ [PPut fid emb]) (vs_deleted s1), None)
+                        (vs_pending s1 ++ [PPut fid stored]) (vs_deleted s1), None)
         end
     end.
+  Definition vput := vput_gen false.
+  Definition vput_unfixed := vput_gen true.
 
   (* delete_frame (accepted): a log record; nothing else changes before the commit *)
   Definition vdelete (s : vstate) (fid : N) : vstate :=
@@ -306,21 +319,10 @@ Section Vec.
   Definition index_docs (s : vstate) : list doc :=
     match vs_index s with Some d => d | None => [] end.
 
-  (* known-finding class of C13: an embedding of length 0 was accepted *)
-  Definition has_empty_embedding (docs : list doc) : bool :=
-    existsb (fun d => N.eqb (dim (doc_emb d)) 0) docs.
-  Definition op_puts_empty (o : vop) : bool :=
-    match o with VPut _ (Some e) => N.eqb (dim e) 0 | _ => false end.
-
+  (* embeddings and queries of 2^32 components or more are outside the theorems (the
+     dimension contract casts the length to u32) *)
   Definition op_dim_fits_u32 (o : vop) : bool :=
     match o with VPut _ (Some e) => N.ltb (dim e) U32_MOD | _ => true end.
-
-  (* the two known-finding classes of C13 as one predicate on (history, query):
-     an empty embedding was put (F-C13-1), or a distance from the query to an indexed
-     embedding fails the guard `okDb` = "is not NaN" (F-C13-2) *)
-  Definition known_class (okDb : D -> bool) (ops : list vop) (q : E) : bool :=
-    existsb op_puts_empty ops ||
-    existsb (fun d => negb (okDb (dist q (doc_emb d)))) (index_docs (fst (vrun vinit ops))).
 
   (* ------------------------------------------------------------ codec (C30) *)
   Section Codec.
@@ -355,15 +357,50 @@ Arguments mkVstate {E} _ _ _ _ _.
 Arguments vinit {E}.
 
 (* ---- the f32 instance of the comparison ----
-   distance values as the harness reports them: None = NaN, Some b = the bit pattern of a
-   non-negative float (+0, subnormal, normal, +inf): such floats order like their bits.
-   partial_cmp(..).unwrap_or(Equal): a NaN on either side compares Equal, i.e. "not
-   Greater" in both directions. *)
-Definition f32key := option N.
-Definition f32_le (a b : f32key) : bool :=
+   A distance value is the raw bit pattern of the f32 (N below 2^32).
+   f32::total_cmp:   let mut l = a.to_bits() as i32; l ^= (((l >> 31) as u32) >> 1) as i32;
+                     (same for r);  l.cmp(&r)
+   i.e. a pattern with the sign bit clear keeps its value, a pattern 2^31 + m (sign bit set)
+   becomes -1 - m: `total_key`.  total_cmp alone orders
+       -NaN < -inf < negative < -0 < +0 < positive < +inf < +NaN.
+   The comparator of the code compares is_nan first (false < true), then total_cmp:
+       -inf < negative < -0 < +0 < positive < +inf < -NaN < +NaN. *)
+Definition F32_SIGN : N := 2147483648.          (* 0x8000_0000 *)
+Definition F32_INF : N := 2139095040.           (* 0x7F80_0000 *)
+Definition total_key (b : N) : Z :=
+  if N.ltb b F32_SIGN then Z.of_N b else (- 1 - Z.of_N (b - F32_SIGN))%Z.
+
+Definition f32_is_nan (b : N) : bool := N.ltb F32_INF (b mod F32_SIGN).
+Definition f32_sign (b : N) : bool := N.leb F32_SIGN b.
+
+(* bool::cmp then total_cmp, read as "not Greater" *)
+Definition f32_nan_last_le (a b : N) : bool :=
+  match f32_is_nan a, f32_is_nan b with
+  | false, true => true                                   (* Less *)
+  | true, false => false                                  (* Greater *)
+  | _, _ => Z.leb (total_key a) (total_key b)             (* Equal, then total_cmp *)
+  end.
+
+(* "a is strictly closer than b" for two distance values that are not negative numbers,
+   with an undefined distance (NaN, either sign) read as farthest: a NaN is never closer
+   than anything, a non-NaN distance is closer than any NaN, and two non-NaN distances
+   compare like their bit patterns (IEEE 754: non-negative floats order like their bits). *)
+Definition f32_closer (a b : N) : bool :=
+  negb (f32_is_nan a) && (f32_is_nan b || N.ltb a b).
+
+(* the minimal assumption on a kernel output for the numeric reading: it is not a negative
+   number (sign bit set only on a NaN).  A square root of a sum of squares satisfies it. *)
+Definition f32_not_negative (b : N) : bool := negb (f32_sign b) || f32_is_nan b.
+
+(* ---- the comparison between 9a670c1 and 1932440 (historical): plain total_cmp ---- *)
+Definition f32_total_le_unfixed (a b : N) : bool := Z.leb (total_key a) (total_key b).
+
+(* ---- the comparison before 9a670c1 (historical) ----
+   distance as option: None = NaN, Some b = bits of a non-negative float;
+   partial_cmp(..).unwrap_or(Equal): a NaN on either side compares Equal. *)
+Definition f32key_unfixed := option N.
+Definition f32_le_unfixed (a b : f32key_unfixed) : bool :=
   match a, b with
   | Some x, Some y => N.leb x y
   | _, _ => true
   end.
-Definition f32_ok (a : f32key) : Prop := a <> None.
-Definition f32_okb (a : f32key) : bool := match a with Some _ => true | None => false end.
